@@ -293,6 +293,74 @@ class Streams3(Streams):
                 self.disagree("rewrite_unpack_output", f"is_unpack,npu,shape,axis={desc}: model '{m}', real '{real}'",
                               {"stream": "unpack", "case": desc, "request": rq, "semantic_request": sq}, sm)
 
+    # ---- 19. PACK (branch of rewrite_concat_ops) ---------------------------------------------------------
+    def stream_pack(self, n):
+        from ethosu.vela import tflite_graph_optimiser as go
+        from ethosu.vela.data_type import DataType
+        from ethosu.vela.operation import Op
+
+        ck, rng = self.ck, self.rng
+        rows = []
+        for i in range(n):
+            rank = rng.choice([1, 2, 2, 3, 3])
+            shape = [rng.randint(1, 5) for _ in range(rank)]
+            axis = rng.randint(-(rank + 1), rank)
+            pos = axis % (rank + 1)
+            count = rng.randint(1, 4)
+            oshape = shape[:pos] + [count] + shape[pos:]
+            if rng.random() < 0.06:      # an OFM that does not hold `count` entries along the axis: the function's assertion
+                oshape[pos] += 1
+            ins = [self.tens(shape, DataType.int8, 0.05, 1, f"in{j}") for j in range(count)]
+            ofm = self.tens(oshape, DataType.int8, 0.05, 1, "ofm")
+            op = self.testutil.create_op(Op.Pack, ins, ofm, {"axis": axis, "values_count": count})
+            op.run_on_npu = True
+            sem = None
+            try:
+                go.rewrite_concat_ops(op, self.arch)
+                pools = list(ofm.ops)
+                a4 = None
+                offs, ok_struct = [], op.type == Op.PackReshaped and len(pools) == count and all(p.inputs[0] is t for p, t in zip(pools, ins))
+                wl = [p.write_offset.as_list() for p in pools]
+                shp = [s.as_list() for s in op.ifm_shapes[:count]]
+                moving = sorted({j for w in wl for j, v in enumerate(w) if v != 0})
+                # the 4-D axis is where the write offsets move; with a single input nothing moves: take the model's
+                real_axes = moving if moving else None
+                if len(moving) > 1 or any(s != shp[0] for s in shp) or any(p.write_shape.as_list() != shp[0] for p in pools):
+                    ok_struct = False
+                rows_axis = moving[0] if moving else None
+                real = (rows_axis, shp[0], wl)
+                realtxt = None
+            except AssertionError:
+                real, realtxt = None, "none"
+            except Exception as e:  # noqa: B902
+                real, realtxt = None, "raises:" + type(e).__name__ + ":" + str(e)[:50]
+            else:
+                if not ok_struct:
+                    realtxt = f"?structure {real}"
+            desc = (tuple(shape), axis, count, tuple(oshape))
+            rows.append((desc, f"rw3_pack {axis} {csv(shape)} {count} {csv(oshape)}", real, realtxt))
+        outs = self.model([r[1] for r in rows])
+        sems, rows2 = [], []
+        for (desc, rq, real, realtxt), m in zip(rows, outs):
+            sq = None
+            if realtxt is None:
+                a4 = real[0] if real[0] is not None else (int(m.split()[1]) if m.startswith("ok ") else 0)
+                realtxt = f"ok {a4} {csv(real[1])} {csv([w[a4] if 0 <= a4 < 4 else -1 for w in real[2]])}"
+                sq = f"rwsem3_unpack {csv(desc[3])} {desc[1] % (len(desc[0]) + 1)} {a4} {csv(real[1])}"
+            sems.append(sq)
+            rows2.append((desc, rq, real, realtxt))
+        rows = rows2
+        sem_outs = iter(self.model([q for q in sems if q is not None]))
+        for (desc, rq, real, realtxt), m, sq in zip(rows, outs, sems):
+            self.evaluations += 1
+            sm = next(sem_outs) if sq is not None else "not-rewritten"
+            ck.count("rw3_pack_cases")
+            ck.count("rw3_pack_" + m.split()[0])
+            self.nontrivial.add(("pack",) + desc)
+            if m != realtxt or sm.startswith("fail") or sm.startswith("err"):
+                self.disagree("rewrite_concat_ops(Pack)", f"shape,axis,count,ofm shape={desc}: model '{m}', real '{realtxt}'",
+                              {"stream": "pack", "case": desc, "request": rq, "semantic_request": sq}, sm)
+
     # ---- driver ------------------------------------------------------------------------------------
     def run(self):
         t = self.ck.thorough
@@ -300,6 +368,7 @@ class Streams3(Streams):
         self.stream_avgpool(1500 if t else 300)
         self.stream_shape(1500 if t else 300)
         self.stream_unpack(1500 if t else 300)
+        self.stream_pack(1000 if t else 240)
 
 
 def run(ck, base=None):
